@@ -261,8 +261,19 @@ func yieldBlocked(s *Sched, what string) {
 	s.switchFrom(t, what, false)
 }
 
+// DaemonSites lists `go` statements (by site prefix) that start service
+// loops which never terminate (the resource manager's event loop, which only
+// logs): they run as plain goroutines outside the simulation.
+var DaemonSites = []string{"pkg/resmgr/events.go"}
+
 // Go replaces the `go` statement.
 func Go(site string, f func()) {
+	for _, d := range DaemonSites {
+		if len(site) >= len(d) && site[:len(d)] == d {
+			go f()
+			return
+		}
+	}
 	s := curSched()
 	if s == nil {
 		// eager: run to completion at the spawn point
